@@ -23,6 +23,7 @@ RULE = ("One evaluation = one seeded execution of two real clients (real "
         "hit a message that the target had not processed yet. Distinct: "
         "event-log digests among non-trivial runs.")
 RULE += (' A fifth configuration runs long exchanges (up to 45 messages a side) with late verbatim replays of version/pake/phase 0. Sweep operations include non-ASCII look-alike labels, third-side re-labelling and pake-withholding.')
+RULE += (' A seventh configuration runs two sessions one after the other in one process and replays what the server forwarded in the first (verbatim, under the old side) right behind the new peer\'s pake in the second.')
 RULE += (' In the long configuration the server may also sit on one numbered message while 9..20 later ones pass, and deliver it afterwards.')
 LEVEL_TEXT = ("Fault enumeration: every tamper operation of the sweep table "
               "(bit flips, truncation, extension, drop, duplicate, side and "
@@ -56,7 +57,10 @@ def configs(tier):
         + [{"spake": "real", "long": True},
            # both sides also dilate: dilate-N control messages share the
            # mailbox (and the reorder buffers) with the numbered phases
-           {"spake": "real", "dilate": True, "reorder_heavy": True}]
+           {"spake": "real", "dilate": True, "reorder_heavy": True},
+           # two sessions in one process; session-1 messages replayed under
+           # the old side into session 2
+           {"spake": "real", "cross_session": True}]
 
 
 SWEEP_OPS = (
@@ -322,9 +326,112 @@ def run_sweep_case(seed, tape, opts):
                      extra_sample={"sweep": sw, "fired": fired})
 
 
+def run_cross_session(seed, tape, opts):
+    """Two sessions, one after the other, in one process (a GUI client, a
+    daemon). The server recorded what it forwarded to A in session 1 and, in
+    session 2, hands A's successor those messages again - verbatim, under the
+    old peer's side - right behind the new peer's pake, i.e. ahead of the new
+    peer's own version / phase 0."""
+    from worlds.mailbox import MailboxWorld
+    w = MailboxWorld(tape, dict(opts, spake="real", read_after_lose=False))
+    sim = w.sim
+    apis = ("deferred", "delegate")
+    recorded = []
+    st = {"session": 1, "injected": 0}
+    a1 = w.add_client("A", api=tape.pick(apis, "api_a1"),
+                      versions={"who": "A", "session": 1})
+    b1 = w.add_client("B", api=tape.pick(apis, "api_b1"),
+                      versions={"who": "B", "session": 1})
+    code1 = "%d-first-session" % (1 + tape.choose(40, "np1"))
+    n1 = 1 + tape.choose(3, "n1")
+    a1.script = [("set_code", code1), ("send", b"A1-hello"),
+                 ("wait_all_delivered_or_steps", "B", 800), ("close",)]
+    b1.script = [("set_code", code1)] + \
+        [("send", b"B1-SESSION-ONE-SECRET-%d" % i) for i in range(n1)] + \
+        [("wait_all_delivered_or_steps", "A", 800), ("close",)]
+    a2 = b2 = None
+
+    def on_server_msg(c, msg):
+        if msg.get("type") != "message":
+            return
+        if st["session"] == 1:
+            if c is a1 and msg.get("side") == b1.side and \
+                    msg.get("phase") != "pake":
+                recorded.append(dict(msg))
+            return
+        if c is a2 and msg.get("side") == b2.side and \
+                msg.get("phase") == "pake" and not st["injected"] and recorded:
+            for link in sim.net.links:
+                if link.mode == "message" and link.up and link.owner is a2:
+                    end = link.ends[0]
+                    for k, m in enumerate(recorded):
+                        end.inflight.insert(k, b"M" + json.dumps(
+                            dict(m, id="replay-%d" % k)).encode())
+                        st["injected"] += 1
+                    sim.note("fault.mbox_tamper.cross_session_replay")
+                    sim.ev("tamper", "C", "cross_session_replay",
+                           len(recorded))
+                    break
+    w.on_server_msg = on_server_msg
+    sim.run(8000, until=lambda: a1.is_closed and b1.is_closed, max_time=600)
+    st["session"] = 2
+    a2 = w.add_client("C", api=tape.pick(apis, "api_a2"),
+                      versions={"who": "C", "session": 2})
+    b2 = w.add_client("D", api=tape.pick(apis, "api_b2"),
+                      versions={"who": "D", "session": 2})
+    code2 = code1 if tape.choose(2, "same_code") == 0 else \
+        "%d-second-session" % (50 + tape.choose(40, "np2"))
+    a2.script = [("set_code", code2), ("send", b"C2-hello"),
+                 ("wait_all_delivered_or_steps", "D", 800), ("close",)]
+    b2.script = [("wait_steps", tape.choose(40, "b2_late")),
+                 ("set_code", code2)] + \
+        [("send", b"D2-session-two-%d" % i)
+         for i in range(1 + tape.choose(3, "n2"))] + \
+        [("wait_all_delivered_or_steps", "C", 800), ("close",)]
+    prefix = ca.PrefixOracle(a2, b2)
+    viol = []
+
+    def on_app_event(c, kind, value):
+        if c is a2 and kind == "versions" and value != b2.versions:
+            viol.append({"key": "C02.versions_forged", "clause": "delivered "
+                         "versions equal the peer's app_versions",
+                         "detail": "second session: %s got versions %r, its "
+                         "peer passed %r (recorded session-1 messages were "
+                         "replayed under the old side)" %
+                         (c.name, value, b2.versions)})
+    w.on_app_event = on_app_event
+    sim.after_step = prefix.step
+    sim.run(8000, until=lambda: bool(viol or prefix.violation) or
+            (a2.is_closed and b2.is_closed), max_time=600)
+    w.heal()
+    sim.run(4000, until=lambda: bool(viol or prefix.violation) or
+            (a2.is_closed and b2.is_closed), max_time=600)
+    w.finish()
+    v = (viol[0] if viol else None) or prefix.violation
+    if v and v["key"] == "C03.prefix":
+        v = dict(v, key="C02.ledger",
+                 clause="every delivered plaintext was encrypted by a holder "
+                        "of the session key for exactly that phase and that "
+                        "sender",
+                 detail=v["detail"] + " | second session in this process; "
+                        "%d recorded session-1 messages replayed under the "
+                        "old peer's side" % st["injected"])
+    for c in (a2, b2):
+        for res in c.closed_results:
+            sim.note("verdict2." + (res if isinstance(res, str)
+                                    else type(res).__name__))
+    return ca.result(sim, w, v, st["injected"] > 0, seed,
+                     extra_sample={"cross_session": True,
+                                   "recorded": [m.get("phase")
+                                                for m in recorded],
+                                   "same_code": code1 == code2})
+
+
 def run_one(seed, tape, opts):
     if opts.get("sweep"):
         return run_sweep_case(seed, tape, opts)
+    if opts.get("cross_session"):
+        return run_cross_session(seed, tape, opts)
     w, a, b = ca.build_pair(tape, opts, max_msgs=45 if opts.get("long")
                             else 4)
     sim = w.sim
